@@ -2980,6 +2980,11 @@ static int32_t parseGeneralNames(psPool_t *pool, const unsigned char **buf,
             activeName->pool = pool;
         }
         terminating_nils = 1;
+        if ((*p & 0xC0) != ASN_CONTEXT_SPECIFIC || (*p & 0x1F) > GN_REGID)
+        {
+            psTraceCrypto("Not a GeneralName tag\n");
+            return PS_PARSE_FAIL;
+        }
         activeName->id = (x509GeneralNameType_t) (*p & 0xF);
         p++; len--;
         switch (activeName->id)
